@@ -975,3 +975,6 @@ CASES["C11"] += [
 CASES["C13"] += [
     ("reintroduce F-54 (no alias closure: only the op's own values are scanned)", "mutant", "snaxc/transforms/insert_sync_barrier.py", "@revert:03e688f~1", "", ["C13.alias-closure"]),
 ]
+CASES["C04"] += [
+    ("reintroduce F-56 (RoCC partners traced while the lowering erases setups)", "mutant", "snaxc/transforms/convert_accfg_to_csr.py", "@revert:a5750d5~1", "", ["C04.retrace-intact"]),
+]
